@@ -260,6 +260,17 @@ func checkC15(w *Worker) {
 			return lg, bookText
 		})
 	})
+	// amounts on and next to the rounding ties of the printed precision (0.125, 0.625, 1.115, 2.675, 0.005 ...): every
+	// presentation must print the digits the plain register prints
+	w.Explore("amounts-on-rounding-ties", ExploreOpts{ShardDepth: 5}, func(x *Exec) {
+		present(x, func(x *Exec) (absLog, string) {
+			q := []float64{0.5, 1, -0.5, 3, 2.5}[x.Choose(5, "input:qty")]
+			q2 := []float64{1, 0.5, -1.5}[x.Choose(3, "input:qty-of-second-food")]
+			book := "ties:\n  a: 0.25\n  b: -0.25\n  c: 1.115\n  d: 2.675\n  e: 1.25\n  f: 0.01\n  g: 1.005\n  h: -1.345\nr1:\n  a: 0.125\n  cal: 2\n"
+			d := absDay{Date: "2021/01/24", Entries: []absIng{{"ties", q}, {"r1", q2}, {"direct", 0.125}, {"direct2", 2.675}}}
+			return absLog{d, {Date: "2021/01/25", Entries: []absIng{{"ties", q2}, {"direct", 1.115}}}}, book
+		})
+	})
 	// names of every length around the two column widths of the default register (27 for the logged food, 20 for
 	// ingredients and totals): a food the book does not define is shown in both columns and in the totals
 	w.Explore("name-lengths-around-the-column-widths", ExploreOpts{ShardDepth: 5}, func(x *Exec) {
